@@ -47,7 +47,8 @@ def DriverState.U (st : DriverState) : UnicodeOps :=
 
 def jOutcome {α} (f : α → J) : Outcome α → J := Encode.outcome f
 
-/-- the model's choice for `HashSet::find`: the smallest candidate -/
+/-- the model's choice among equally minimal candidates of `min_by_key` in `find_type` (they are all
+the same import, so any valid choice gives the same result): the smallest candidate -/
 def pickSmallest (c : List ImportedType) : Option ImportedType :=
   c.foldl (fun acc i => match acc with
     | none => some i
@@ -299,25 +300,15 @@ def handle (st : DriverState) (req : Sx) : DriverState × J :=
   | .list [.atom "parse", c, e, .str crate, .str fileName, .str path, f] =>
     (st, match decodeCtx c, decodeExt st.U st.snake e, Decode.file f with
       | some ctx, some ext, some file =>
-        let ans := jOutcome (fun o => match o with | some d => Encode.parsed d | none => .null)
+        jOutcome (fun o => match o with | some d => Encode.parsed d | none => .null)
           (Visitor.parseFile ext ctx pickSmallest crate fileName path file)
-        let amb := if ctx.multiFile && file.marker then
-            (match Visitor.visitFile ext ctx crate fileName path file with
-             | .ok d => Visitor.ambiguousImports d
-             | _ => [])
-          else []
-        (match ans, amb with
-         | .obj kvs, _ :: _ => .obj (kvs ++ [("ambiguous", J.ofStrs amb)])
-         | a, _ => a)
       | _, _, _ => bad "parse")
   | .list [.atom "generate", l, multi, .list tos, e, .list fs] =>
     (st, match decodeLang l, multi.asBool?, Decode.strs tos, decodeExt st.U st.snake e, fs.mapM decodeSource with
       | some lang, some m, some targets, some ext, some files =>
         (match Generate.run ext lang m targets pickSmallest files with
         | .ok (.outputs outs) =>
-          .obj ([("ok", .obj (outs.map fun (c, t) => (String.ofList c, .str t)))] ++
-            (let amb := if m then Generate.ambiguities ext lang targets files else []
-             if amb.isEmpty then [] else [("ambiguous", J.ofStrs amb)]))
+          .obj [("ok", .obj (outs.map fun (c, t) => (String.ofList c, .str t)))]
         | .ok (.parseErrors errs) =>
           .obj [("errors", .arr (errs.map fun (e, f) => .arr [.str (Encode.errName e).toList, .str f]))]
         | .err e => .obj [("err", .str (Encode.errName e).toList)]
